@@ -11,12 +11,17 @@ import (
 // value; a completed send increments the ghost counter $chsends of the channel; a select fires exactly one of
 // its cases (or none, when it has a default).
 
-func (fr *Frame) chanSend(c *blockCtx, ch Term, cond string) {
+func (fr *Frame) chanSend(c *blockCtx, ch Term, cond string, val Term) {
 	g := fr.g
 	if _, ok := g.W.ghosts["$chsends"]; !ok {
 		return
 	}
 	cur := g.getGhost(c.st, "$chsends", ch.S)
+	if _, ok := g.W.ghosts["$chlogI"]; ok && val.Sort == SIface {
+		// log of the interface values sent on the channel, indexed by send number
+		lg := g.getGhost(c.st, "$chlogI", ch.S)
+		g.setGhost(c.st, "$chlogI", ch.S, ite(cond, sto(lg.S, cur.S, val.S), lg.S))
+	}
 	g.setGhost(c.st, "$chsends", ch.S, ite(cond, "(+ "+cur.S+" 1)", cur.S))
 }
 
@@ -50,7 +55,7 @@ func (fr *Frame) execSend(ins *ssa.Send, c *blockCtx) {
 		cur := g.getGhost(c.st, "$chlen", ch.S)
 		g.setGhost(c.st, "$chlen", ch.S, "(+ "+cur.S+" 1)")
 	}
-	fr.chanSend(c, ch, "true")
+	fr.chanSend(c, ch, "true", fr.val(ins.X))
 	fr.g.blockingOps = append(fr.g.blockingOps, fmt.Sprintf("%s: bare send on %s", funcKey(fr.fn), ins.Chan.Name()))
 }
 
@@ -64,12 +69,38 @@ func (fr *Frame) execRecv(ins *ssa.UnOp, c *blockCtx) {
 	v := g.sc.Fresh("recv", g.sortOf(et))
 	g.sc.Assume(g.typeInv(v.S, et))
 	g.assumeOld(v, g.curBase)
+	ch := fr.val(ins.X)
+	if g.W.closeOnlyField(ins.X) {
+		// nothing is ever sent on a close-only channel: the receive completed because it is closed
+		g.sc.Assume(implies(c.reach, g.getGhost(c.st, "$chclosed", ch.S).S))
+	}
 	if ins.CommaOk {
 		ok := g.sc.Fresh("recvok", SBool)
+		if !g.W.closeOnlyField(ins.X) {
+			fr.chanRecv(c, ch, ok.S, v)
+		}
 		fr.tuples[ins] = []Term{v, ok}
 		return
 	}
+	if !g.W.closeOnlyField(ins.X) {
+		fr.chanRecv(c, ch, "true", v)
+	}
 	fr.vals[ins] = v
+}
+
+// chanRecv counts a receive that delivered a value (ghost $chrecvs), when that ghost is declared.
+func (fr *Frame) chanRecv(c *blockCtx, ch Term, cond string, val Term) {
+	g := fr.g
+	if _, ok := g.W.ghosts["$chrecvs"]; !ok {
+		return
+	}
+	cur := g.getGhost(c.st, "$chrecvs", ch.S)
+	if _, ok := g.W.ghosts["$chrlogI"]; ok && val.Sort == SIface {
+		// log of the interface values received from the channel, indexed by receive number
+		lg := g.getGhost(c.st, "$chrlogI", ch.S)
+		g.setGhost(c.st, "$chrlogI", ch.S, ite(cond, sto(lg.S, cur.S, val.S), lg.S))
+	}
+	g.setGhost(c.st, "$chrecvs", ch.S, ite(cond, "(+ "+cur.S+" 1)", cur.S))
 }
 
 func (fr *Frame) execSelect(ins *ssa.Select, c *blockCtx) {
@@ -100,13 +131,19 @@ func (fr *Frame) execSelect(ins *ssa.Select, c *blockCtx) {
 	for i, st := range ins.States {
 		ch := fr.val(st.Chan)
 		if st.Dir == types.SendOnly {
-			fr.chanSend(c, ch, eq(idx.S, fmt.Sprint(i)))
+			fr.chanSend(c, ch, eq(idx.S, fmt.Sprint(i)), fr.val(st.Send))
 			continue
 		}
 		et := st.Chan.Type().Underlying().(*types.Chan).Elem()
 		v := g.sc.Fresh("selrecv", g.sortOf(et))
 		g.sc.Assume(g.typeInv(v.S, et))
 		g.assumeOld(v, g.curBase)
+		if g.W.closeOnlyField(st.Chan) {
+			// nothing is ever sent on it: the case fires only once the channel is closed, and delivers no value
+			g.sc.Assume(implies(and(c.reach, eq(idx.S, fmt.Sprint(i))), g.getGhost(c.st, "$chclosed", ch.S).S))
+		} else {
+			fr.chanRecv(c, ch, and(eq(idx.S, fmt.Sprint(i)), recvOk.S), v)
+		}
 		res = append(res, v)
 	}
 	fr.tuples[ins] = res
